@@ -99,6 +99,11 @@ pub enum FillPatternType {
     UserdDefined,
 }
 
+/// Verification hook (observation only, compiled only with `--cfg icy_engine_verif`): number of `set_pixel` /
+/// `get_pixel` calls made so far by all `DrawExecutor`s of the process.
+#[cfg(icy_engine_verif)]
+pub static VERIF_PIXEL_OPS: std::sync::atomic::AtomicU64 = std::sync::atomic::AtomicU64::new(0);
+
 pub struct DrawExecutor {
     screen: Vec<u8>,
     terminal_resolution: TerminalResolution,
@@ -267,6 +272,8 @@ impl DrawExecutor {
     }*/
 
     fn set_pixel(&mut self, x: i32, y: i32, line_color: u8) {
+        #[cfg(icy_engine_verif)]
+        VERIF_PIXEL_OPS.fetch_add(1, std::sync::atomic::Ordering::Relaxed);
         let offset = (y * self.get_resolution().width + x) as usize;
         if offset >= self.screen.len() {
             return;
@@ -275,6 +282,8 @@ impl DrawExecutor {
     }
 
     fn get_pixel(&mut self, x: i32, y: i32) -> u8 {
+        #[cfg(icy_engine_verif)]
+        VERIF_PIXEL_OPS.fetch_add(1, std::sync::atomic::Ordering::Relaxed);
         let offset = (y * self.get_resolution().width + x) as usize;
         if offset >= self.screen.len() {
             return 0;
